@@ -7,7 +7,7 @@ formulas, R3 frame-dependent primitives are fenced off protein atoms.
 import ast
 
 from sa import callgraph
-from sa.astutil import (call_name, calls_in, dotted, norm, walk_no_nested, last_attr,
+from sa.astutil import (anorm, call_name, calls_in, dotted, norm, walk_no_nested, last_attr,
                         names_in, fact_texts, try_fold, enclosing_stmt, ancestors,
                         func_params, enclosing_loops)
 from sa.loader import AnalysisError
@@ -287,29 +287,21 @@ class VecKinds:
 
 
 def rename_axes(text_node):
-    """Cyclic renaming x->y->z->x on a copy of a statement; returns text with
-    three-element argument lists sorted (position = axis)."""
+    """Cyclic renaming x->y->z->x of coordinate attributes, coordinate keyword
+    names and 0/1/2 subscripts on a structural copy of a node.  Locals are not
+    touched: they are inlined beforehand (see inline_locals)."""
     from sa.symexpand import clone
     node = clone(text_node)
-    nxt = {'x': 'y', 'y': 'z', 'z': 'x'}
+    nxt = {'x': 'y', 'y': 'z', 'z': 'x', 'xi': 'yi', 'yi': 'zi', 'zi': 'xi'}
     idx = {0: 1, 1: 2, 2: 0}
-
-    def ren_name(name):
-        # single letter, d<axis>..., <axis>i, ..._<axis>, <axis>1_atom stay (objects)
-        if name in nxt:
-            return nxt[name]
-        if len(name) >= 2 and name[0] == 'd' and name[1] in nxt and (len(name) == 2 or name[2] in '_0123456789'):
-            return 'd' + nxt[name[1]] + name[2:]
-        if len(name) == 2 and name[0] in nxt and name[1] == 'i':
-            return nxt[name[0]] + 'i'
-        return name
     for n in ast.walk(node):
-        if isinstance(n, ast.Attribute) and n.attr in nxt:
+        if isinstance(n, ast.Attribute) and n.attr in ('x', 'y', 'z'):
             n.attr = nxt[n.attr]
-        elif isinstance(n, ast.Name):
-            n.id = ren_name(n.id)
-        elif isinstance(n, ast.keyword) and n.arg:
-            n.arg = ren_name(n.arg)
+        elif isinstance(n, ast.keyword) and n.arg in nxt:
+            n.arg = nxt[n.arg]
+        elif isinstance(n, ast.Name) and n.id in nxt:
+            # only parameters keep these names after inlining (API names)
+            n.id = nxt[n.id]
         elif isinstance(n, ast.Subscript) and isinstance(n.slice, ast.Constant) \
                 and n.slice.value in idx and isinstance(n.value, ast.Name) \
                 and 'cutoff' not in n.value.id:
@@ -317,13 +309,87 @@ def rename_axes(text_node):
     return node
 
 
+def inline_locals(fn):
+    """Output statements of ``fn`` (returns, attribute/subscript stores,
+    augmented stores, expression statements) with every local replaced by its
+    latest preceding definition, in source order.  Loop targets and parameters
+    stay symbolic.  This makes the axis-uniformity comparison independent of
+    how locals are named."""
+    from sa.symexpand import substitute, clone
+    env = {}
+    outs = []
+    params = set(func_params(fn))
+
+    def visit(stmts):
+        for s in stmts:
+            if isinstance(s, ast.Assign) and len(s.targets) == 1:
+                val = substitute(s.value, env)
+                tgt = s.targets[0]
+                if isinstance(tgt, ast.Name) and tgt.id not in params:
+                    env[tgt.id] = val
+                elif isinstance(tgt, (ast.Tuple, ast.List)) and all(isinstance(e, ast.Name) for e in tgt.elts):
+                    for i, e in enumerate(tgt.elts):
+                        if isinstance(val, (ast.Tuple, ast.List)) and len(val.elts) == len(tgt.elts):
+                            env[e.id] = val.elts[i]
+                        else:
+                            env[e.id] = ast.Subscript(value=clone(val), slice=ast.Constant(i), ctx=ast.Load())
+                else:
+                    outs.append(ast.Assign(targets=[substitute(tgt, env)], value=val))
+            elif isinstance(s, ast.AugAssign):
+                val = substitute(s.value, env)
+                if isinstance(s.target, ast.Name) and s.target.id not in params:
+                    cur = env.get(s.target.id, ast.Name(id=s.target.id, ctx=ast.Load()))
+                    env[s.target.id] = ast.BinOp(left=clone(cur), op=s.op, right=val)
+                else:
+                    outs.append(ast.AugAssign(target=substitute(s.target, env), op=s.op, value=val))
+            elif isinstance(s, ast.Return) and s.value is not None:
+                outs.append(ast.Return(value=substitute(s.value, env)))
+            elif isinstance(s, ast.Expr) and not isinstance(s.value, ast.Constant):
+                outs.append(ast.Expr(value=substitute(s.value, env)))
+            elif isinstance(s, (ast.For, ast.While)):
+                if isinstance(s, ast.For):
+                    for n in ast.walk(s.target):
+                        if isinstance(n, ast.Name):
+                            env.pop(n.id, None)
+                visit(s.body)
+                visit(s.orelse)
+            elif isinstance(s, ast.If):
+                visit(s.body)
+                visit(s.orelse)
+            elif isinstance(s, ast.With):
+                visit(s.body)
+            elif isinstance(s, ast.Try):
+                visit(s.body)
+                for h in s.handlers:
+                    visit(h.body)
+                visit(s.orelse)
+                visit(s.finalbody)
+    visit(fn.body)
+    return outs
+
+
 def canon(node):
-    """Text of a statement with commutative three-way structure normalised:
-    3-element arg lists/lists and +/* operand chains are sorted."""
+    """Text of a statement with commutative structure normalised: +/* operand
+    chains sorted, and every window of three consecutive positional arguments
+    / list elements that the cyclic renaming maps onto itself (a0->a1->a2->a0)
+    sorted (position = axis)."""
     def flat(n, op):
         if isinstance(n, ast.BinOp) and isinstance(n.op, op):
             return flat(n.left, op) + flat(n.right, op)
         return [n]
+
+    def triples(items):
+        texts = [tx(a) for a in items]
+        i = 0
+        while i + 2 < len(items) + 0 and i + 2 <= len(items) - 1:
+            r = [tx(rename_axes(a)) for a in items[i:i + 3]]
+            if r[0] == texts[i + 1] and r[1] == texts[i + 2] and r[2] == texts[i] \
+                    and len({texts[i], texts[i + 1], texts[i + 2]}) == 3:
+                texts[i:i + 3] = sorted(texts[i:i + 3])
+                i += 3
+            else:
+                i += 1
+        return texts
 
     def tx(n):
         if isinstance(n, ast.BinOp) and isinstance(n.op, (ast.Add, ast.Mult)):
@@ -333,21 +399,25 @@ def canon(node):
             return '(%s %s %s)' % (tx(n.left), type(n.op).__name__, tx(n.right))
         if isinstance(n, ast.Lambda):
             return 'lambda: ' + tx(n.body)
-        if isinstance(n, ast.Subscript) and isinstance(n.slice, ast.Tuple) and len(n.slice.elts) == 3:
-            return '%s[%s]' % (tx(n.value), ', '.join(sorted(tx(e) for e in n.slice.elts)))
+        if isinstance(n, ast.Subscript) and isinstance(n.slice, ast.Tuple):
+            return '%s[%s]' % (tx(n.value), ', '.join(triples(list(n.slice.elts))))
+        if isinstance(n, ast.Subscript):
+            return '%s[%s]' % (tx(n.value), tx(n.slice))
+        if isinstance(n, ast.Attribute):
+            return '%s.%s' % (tx(n.value), n.attr)
+        if isinstance(n, ast.Compare):
+            return '(%s %s)' % (tx(n.left), ' '.join(
+                '%s %s' % (type(o).__name__, tx(c)) for o, c in zip(n.ops, n.comparators)))
+        if isinstance(n, ast.BoolOp):
+            return '(%s)' % (' %s ' % type(n.op).__name__).join(tx(v) for v in n.values)
+        if isinstance(n, ast.IfExp):
+            return '(%s if %s else %s)' % (tx(n.body), tx(n.test), tx(n.orelse))
         if isinstance(n, ast.Call):
-            args = [tx(a) for a in n.args]
-            if len(args) == 3:
-                args = sorted(args)
-            elif len(args) > 3:
-                for i in range(len(args) - 2):
-                    if sorted(args[i:i + 3]) == ['x', 'y', 'z']:
-                        args[i:i + 3] = ['x', 'y', 'z']
+            args = triples(list(n.args))
             kws = sorted('%s=%s' % (k.arg, tx(k.value)) for k in n.keywords)
             return '%s(%s)' % (tx(n.func), ', '.join(args + kws))
         if isinstance(n, (ast.List, ast.Tuple)):
-            el = [tx(e) for e in n.elts]
-            return '[' + ', '.join(sorted(el) if len(el) == 3 else el) + ']'
+            return '[' + ', '.join(triples(list(n.elts))) + ']'
         if isinstance(n, ast.UnaryOp):
             return '(%s%s)' % (type(n.op).__name__, tx(n.operand))
         if isinstance(n, ast.Return):
@@ -363,18 +433,16 @@ def canon(node):
 
 
 def axis_uniform(fn):
-    """Is the multiset of statements invariant under x->y->z->x?"""
-    stmts = [s for s in walk_no_nested(fn) if isinstance(s, (ast.Assign, ast.AugAssign, ast.Return,
-                                                              ast.Expr))
-             and not (isinstance(s, ast.Expr) and isinstance(s.value, ast.Constant))
-             and any(isinstance(n, ast.Attribute) and n.attr in AXES or
-                     (isinstance(n, ast.Name) and (n.id in AXES or (len(n.id) >= 2 and n.id[0] == 'd'
-                                                                    and n.id[1] in AXES)))
-                     or (isinstance(n, ast.keyword) and n.arg in ('x', 'y', 'z', 'xi', 'yi', 'zi'))
-                     for n in ast.walk(s))]
+    """Is the multiset of (inlined) output statements invariant under the
+    cyclic renaming x->y->z->x?"""
+    def has_axis(s):
+        return any((isinstance(n, ast.Attribute) and n.attr in AXES) or
+                   (isinstance(n, ast.keyword) and n.arg in ('x', 'y', 'z', 'xi', 'yi', 'zi'))
+                   for n in ast.walk(s))
+    stmts = [s for s in inline_locals(fn) if has_axis(s)]
     orig = sorted(canon(s) for s in stmts)
     ren = sorted(canon(rename_axes(s)) for s in stmts)
-    return orig == ren, len(stmts), [a for a in orig if a not in ren][:3]
+    return orig == ren, len(stmts), [a[:150] for a in orig if a not in ren][:3]
 
 
 def run(ctx):
@@ -395,7 +463,7 @@ def run(ctx):
             n_funcs += 1
             n_reads += len(reads)
             for top, ok, how in check_function_affine(ctx, mod, qual, fn):
-                key = 'coordinate-use:%s.%s:%s' % (mod.name, qual, norm(top)[:60])
+                key = 'coordinate-use:%s.%s:%s' % (mod.name, qual, anorm(top, fn)[:60])
                 dup = sum(1 for o in ctx.obligations if o['key'].split('#')[0] == key)
                 if dup:
                     key += '#%d' % (dup + 1)
@@ -418,7 +486,7 @@ def run(ctx):
                 base = (call_name(c) or '').split('.')[-1]
                 if base == 'add_proton' and len(c.args) == 2:
                     k = vk.kind(c.args[1])
-                    ctx.ob('C04.R1', 'proton-position:%s.%s:%s' % (mname, qual, norm(c.args[1])),
+                    ctx.ob('C04.R1', 'proton-position:%s.%s:%s' % (mname, qual, anorm(c.args[1], fn)),
                            k == 'point',
                            'a proton is placed at position + displacement (kind %s)' % k, mod, c)
                 if base in ('rescale', 'cross', 'dot', 'orthogonal') and isinstance(c.func, ast.Attribute):
@@ -426,11 +494,11 @@ def run(ctx):
                     ka = [vk.kind(a) for a in c.args] if base in ('cross', 'dot') else []
                     ok = k in ('disp', None) and all(x in ('disp', None) for x in ka)
                     if not ok:
-                        ctx.ob('C04.R1', 'vector-op:%s.%s:%s' % (mname, qual, norm(c)[:50]), False,
+                        ctx.ob('C04.R1', 'vector-op:%s.%s:%s' % (mname, qual, anorm(c, fn)[:50]), False,
                                '%s applied to a position vector (kinds %s %s)' % (base, k, ka), mod, c)
                 if base == 'rotate_vector_around_an_axis' and len(c.args) == 3:
                     ks = [vk.kind(c.args[1]), vk.kind(c.args[2])]
-                    ctx.ob('C04.R1', 'rotation-args:%s.%s:%s' % (mname, qual, norm(c)[:50]),
+                    ctx.ob('C04.R1', 'rotation-args:%s.%s:%s' % (mname, qual, anorm(c, fn)[:50]),
                            all(k == 'disp' for k in ks),
                            'axis and vector of a rotation are displacements (%s)' % ks, mod, c)
 
@@ -475,7 +543,7 @@ def run(ctx):
             fenced = any(p and ("type == 'hetatm'" in t) for t, p in facts) or \
                 any((not p) and ("type == 'atom'" in t) for t, p in facts)
             reachable_for_protein = (m2.name, q2) in reach
-            key = 'frame-dependent-site:%s.%s:%s' % (m2.name, q2, norm(c))
+            key = 'frame-dependent-site:%s.%s:%s' % (m2.name, q2, anorm(c, f2))
             ctx.ob('C04.R3', key, fenced or not reachable_for_protein,
                    '%s.%s picks an arbitrary perpendicular with Vector.orthogonal(), whose result '
                    'depends on the orientation of the frame; the property allows that for hetero '
